@@ -17,7 +17,6 @@ import (
 )
 
 var c *common.Ctx
-var debug = false
 
 const header = `From Coq Require Import List NArith String.
 From Coq Require Import Strings.Byte.
@@ -90,6 +89,11 @@ func emitFlow(s ordgen.Scenario) (ok bool) {
 	k := s.OrdIdx()
 	var prev []uint64
 	dst := 0
+	if res.Final == nil && !res.Panicked && s.Note == "ample" && s.FinalQuote().Complete() && s.Quote.Complete() {
+		// not a clause of the property, but the flows are meant to complete: a well-formed, amply funded
+		// offer that is turned down is reported with its input (tie / search)
+		c.Violate(api+"/funded-offer-rejected", fmt.Sprintf("%v / %v / %v", res.ListErr, res.MakeErr, res.Err), s)
+	}
 	if res.Final != nil {
 		ok = true
 		for _, f := range ordgen.Check(s, res) {
@@ -249,10 +253,10 @@ func withTuned(s ordgen.Scenario, tune int, v uint64, note string) ordgen.Scenar
 
 // the fee boundary: the smallest value of the tuned UTXO (within a window around the estimate) at which
 // the flow still returns a transaction
-func boundary(s ordgen.Scenario, tune int) (uint64, bool) {
+func boundary(s ordgen.Scenario, tune int) (t uint64, ok bool, est, w int64) {
 	res := ordgen.Run(s)
 	if res.Final == nil {
-		return 0, false
+		return
 	}
 	// what the outputs other than change need, and the fee of the transaction without a change output
 	k := s.OrdIdx()
@@ -267,7 +271,7 @@ func boundary(s ordgen.Scenario, tune int) (uint64, bool) {
 	}
 	q := s.FinalQuote()
 	if !q.Complete() {
-		return 0, false
+		return
 	}
 	fee := q.Quoted(uint64(size), 0).Uint64()
 	for i, p := range s.PrevOuts(res) {
@@ -275,9 +279,9 @@ func boundary(s ordgen.Scenario, tune int) (uint64, bool) {
 			others += p.Sats
 		}
 	}
-	est := int64(need) + int64(fee) - int64(others)
+	est = int64(need) + int64(fee) - int64(others)
 	perByte := int64(q.Std.Sat/q.Std.Bytes) + 1
-	w := 130*perByte + 16 + int64(s.Ord.Sats)
+	w = 130*perByte + 16 + int64(s.Ord.Sats)
 	lo, hi := est-w, est+w
 	if lo < 1 {
 		lo = 1
@@ -289,10 +293,7 @@ func boundary(s ordgen.Scenario, tune int) (uint64, bool) {
 		return ordgen.Run(withTuned(s, tune, uint64(v), "")).Final != nil
 	}
 	if !okAt(hi) || okAt(lo) {
-		if debug {
-			fmt.Println("DBG", s.Flow, "price", s.Price, "q", s.Quote.Coq(), "need", need, "fee", fee, "others", others, "est", est, "lo", lo, okAt(lo), "hi", hi, okAt(hi), "ord", s.Ord.Sats, fundKey(s), "tune", tune)
-		}
-		return 0, false
+		return 0, false, est, w
 	}
 	for hi-lo > 1 {
 		m := (lo + hi) / 2
@@ -302,7 +303,7 @@ func boundary(s ordgen.Scenario, tune int) (uint64, bool) {
 			lo = m
 		}
 	}
-	return uint64(hi), true
+	return uint64(hi), true, est, w
 }
 
 func flowCases(r *common.Rand, bases int) {
@@ -312,11 +313,19 @@ func flowCases(r *common.Rand, bases int) {
 			emitFlow(withTuned(s, tune, s.Funding[tune].Sats, "ample"))
 			// in the standard flows the tuned UTXO must not become the first one worth more than the price
 			// for the dummy-output arithmetic to stay put; the boundary search simply follows the flow
-			t, ok := boundary(s, tune)
+			t, ok, est, w := boundary(s, tune)
 			if !ok {
 				// the other UTXOs already pay for everything: make them small so that the tuned one decides
 				s = shrinkOthers(r, s, tune)
-				t, ok = boundary(s, tune)
+				t, ok, est, w = boundary(s, tune)
+			}
+			// underfunded / funded by the harness's own estimate of the fee (not by the flow's verdict)
+			if w > 0 {
+				margin := w/8 + 3
+				if v := est - margin - int64(r.Intn(int(w/2)+1)); v >= 1 {
+					emitFlow(withTuned(s, tune, uint64(v), "estimate-underfunded"))
+				}
+				emitFlow(withTuned(s, tune, uint64(est+margin+int64(r.Intn(int(w/2)+1))), "estimate-funded"))
 			}
 			if ok {
 				c.Tally("boundary/found/" + flow)
@@ -376,11 +385,17 @@ func flowCases(r *common.Rand, bases int) {
 					e := feegen.Q(s.Quote.Std.Sat*m, s.Quote.Std.Bytes*100, s.Quote.Data.Sat*m, s.Quote.Data.Bytes*100)
 					x.Expected = &e
 					x.Note = "expected-quote-differs"
-					if t, ok := boundary(x, tune); ok {
+					t, ok, est, w := boundary(x, tune)
+					if ok {
 						emitFlow(withTuned(x, tune, t, "expected-quote-differs/boundary"))
 						emitFlow(withTuned(x, tune, t+uint64(r.Intn(60)), "expected-quote-differs/window"))
 					} else {
 						emitFlow(x)
+					}
+					if w > 0 {
+						if v := est - w/8 - 3 - int64(r.Intn(int(w/2)+1)); v >= 1 {
+							emitFlow(withTuned(x, tune, uint64(v), "expected-quote-differs/estimate-underfunded"))
+						}
 					}
 				}
 			}
@@ -719,6 +734,6 @@ func main() {
 	flowCases(r.Fork(), bases)
 	inscriptionCases(r.Fork())
 	rangeCases(r.Fork())
-	c.Stats.Rule = "flows: per flow (ListOrdinalForSale+AcceptOrdinalSaleListing, the 2-dummy variant, MakeBid+AcceptBid, the 2-dummy variant) seeded base scenarios: fresh secp256k1 keys for seller and 2 buyer keys, ordinal UTXO (P2PKH or P2PKH-inscription of the seller, 1/2/10/1000 sat), price from {1,2,545,546,1000,..,2^32+5,21e14} or random < 1e8, 2..5 funding UTXOs (3..5 for 2 dummies) with the UTXO worth more than the price at a random position and the others at price / price-1 / price/2 / small, one of 11 fee quotes (0..50 sat/byte, unequal std/data); each base is run amply funded, then at the fee boundary found by bisection on one UTXO's value (smallest value for which the flow returns a transaction) -1/0/+1 and at random points inside a 140-sat window on both sides, plus negatives (validation given another UTXO, too few UTXOs, no UTXO above the price, quote lacking a fee type, seller's ExpectedFQ 0.9..2x the bidder's quote at its own boundary). Every returned transaction: each input executed by the real interpreter (re-decoded tx, previous output from the scenario, FORKID+after-genesis), seller output at the ordinal's input index, FIFO routing of the ordinal's first satoshi computed over big integers, fee >= quoted fee of the final serialisation. inscriptions: content-type lengths {0,1,24,75,76,255,256} x payload lengths {0,1,75,76,255,256,65535,65536,100000} (long ones for one content type in quick), script-like payloads, enriched OP_RETURN tails, random small; ParseInscription on all 144 pairs of 12 push encodings at the content-type/data positions, and bit flips / truncations / deletions / insertions / appends of inscribed scripts and random scripts; InscribeSpecificOrdinal on 0..4 inputs with values incl. 0, 2^63, 2^64-1, index up to len+1 and 2^31/2^32-1. distinct = distinct (flow, price, quote, funding values, ordinal script) / (prefix, content type, payload) / script / (values, index, satoshi); all cases non-trivial except rangeAbove on no inputs"
+	c.Stats.Rule = "flows: per flow (ListOrdinalForSale+AcceptOrdinalSaleListing, the 2-dummy variant, MakeBid+AcceptBid, the 2-dummy variant) seeded base scenarios: fresh secp256k1 keys for seller and 2 buyer keys, ordinal UTXO (P2PKH or P2PKH-inscription of the seller, 1/2/10/1000 sat), price from {1,2,545,546,1000,..,2^32+5,21e14} or random < 1e8, 2..5 funding UTXOs (3..5 for 2 dummies) with the UTXO worth more than the price at a random position and the others at price / price-1 / price/2 / small, one of 11 fee quotes (0..50 sat/byte, unequal std/data); each base is run amply funded (a well-formed amply funded offer that is turned down is reported: funded-offer-rejected), then under- and over-funded by the harness's own fee estimate (size of the ample result x quote, independent of the flow's verdict), then at the fee boundary found by bisection on one UTXO's value (smallest value for which the flow returns a transaction) -1/0/+1 and at random points inside a 140-sat window on both sides, plus negatives (validation given another UTXO, too few UTXOs, no UTXO above the price, quote lacking a fee type, seller's ExpectedFQ 0.9..2x the bidder's quote at its own boundary). Every returned transaction: each input executed by the real interpreter (re-decoded tx, previous output from the scenario, FORKID+after-genesis), seller output at the ordinal's input index, FIFO routing of the ordinal's first satoshi computed over big integers, fee >= quoted fee of the final serialisation. inscriptions: content-type lengths {0,1,24,75,76,255,256} x payload lengths {0,1,75,76,255,256,65535,65536,100000} (long ones for one content type in quick), script-like payloads, enriched OP_RETURN tails, random small; ParseInscription on all 144 pairs of 12 push encodings at the content-type/data positions, and bit flips / truncations / deletions / insertions / appends of inscribed scripts and random scripts; InscribeSpecificOrdinal on 0..4 inputs with values incl. 0, 2^63, 2^64-1, index up to len+1 and 2^31/2^32-1. distinct = distinct (flow, price, quote, funding values, ordinal script) / (prefix, content type, payload) / script / (values, index, satoshi); all cases non-trivial except rangeAbove on no inputs"
 	c.Finish()
 }
